@@ -170,6 +170,10 @@ def run(tier, seed):
                     continue
                 if outcome in ("wav", "soundfile", "sph") and len(shape) > 1 and shape[1] > 2 and outcome == "wav":
                     pass
+                if outcome == "soundfile" and shape[0] == 0:
+                    continue  # libsndfile cannot reopen a flac / aiff without frames
+                if outcome in ("wav", "soundfile", "sph") and len(shape) == 2 and shape[1] == 1:
+                    continue  # one channel is stored (and read back) as mono, by every audio container
                 arr = nprng.randint(-3000, 3000, size=shape)
                 variant = k + len(shape)
                 if os.path.exists(name):
